@@ -1540,3 +1540,26 @@ Example ex_bulk_request :
   (mkSt ((Ex.a1, mkEntry 3 4000000040) :: (Ex.a0, mkEntry 2 4000000040) :: (Ex.a2, mkEntry 0 4000000040) :: Ex.c)
         [[Ex.a1]; [Ex.a0]; [Ex.a3]; [Ex.a2]], Served [Some 2]).
 Proof. vm_compute. reflexivity. Qed.
+
+(* ---- configuration loader: the rule of a cache is in force for every grid of the cache -------------------- *)
+
+Lemma cache_managers_rule : forall rb fs grids m, In m (cache_managers rb fs grids) -> m_refresh_before m = rb.
+Proof.
+  intros rb fs grids m H. unfold cache_managers in H. apply in_map_iff in H. destruct H as [meta [<- _]]. reflexivity.
+Qed.
+
+Lemma cache_managers_threshold : forall Q rb fs grids m ev,
+  In m (cache_managers rb fs grids) ->
+  expire_timestamp Q m ev = match rb with Some rc => before_timestamp_from_options Q rc ev | None => ThrNone end.
+Proof.
+  intros Q rb fs grids m ev H. unfold cache_managers in H. apply in_map_iff in H. destruct H as [meta [<- _]].
+  unfold expire_timestamp. cbn [m_refresh_before m_expire]. destruct rb; reflexivity.
+Qed.
+
+Lemma cache_managers_length : forall rb fs grids, length (cache_managers rb fs grids) = length grids.
+Proof. intros. unfold cache_managers. apply map_length. Qed.
+
+Example ex_cache_managers :
+  map (fun m => expire_timestamp Ex.q m Ex.ev) (cache_managers (Some (mkRconf None false 0 0 0 0 8)) false [false; true; false])
+  = [ThrAt 4000000032; ThrAt 4000000032; ThrAt 4000000032].
+Proof. vm_compute. reflexivity. Qed.
